@@ -737,6 +737,9 @@ def worker(spec):
                 if budget.over():
                     res.count("budget_cut")
                     break
+                if not failpoints.injection_budget_left():
+                    res.count("settrace_injection_budget_reached")
+                    break
                 fault = InjectedFault("line %d" % k)
                 # faults raised by the failpoint are not created by a boundary wrapper: register on the fly
                 orig_note = ST.get("line_fault")
@@ -785,6 +788,8 @@ def traced_with_fault(fp, thunk, k, fault, ST, note_fault, reset, io, warnings):
                 fp.fired = True
                 fp.fired_at = (frame.f_code.co_name, frame.f_lineno)
                 note_fault(real_exc, ("line", k))
+                from vlib import failpoints as _fpmod
+                _fpmod.RAISED_FROM_TRACE_FUNCTION[0] += 1
                 raise real_exc
         return loc
 
